@@ -1,6 +1,7 @@
 PROP = {
     "title": "JSON encode/decode is lossless and agrees with encoding/json",
     "run_modules": ["RunJson"],
+    "gen": ["setters", "pure"],
     "n": {"quick": 4000, "thorough": 60000},
     "level": "proof",
     "technique": "Coq transcription of encoding/json's string encoder (HTML escaping on/off) and decoder, of Map.Json / JsonIndent (marshalJSON + json.Indent) and of the former post-marshal rewrite (bytes.Replace x3, kept as a specification artefact) + theorems over all strings / all Maps + model/implementation correspondence by vm_compute (all single bytes, hazardous fragments, random Maps, arbitrary byte strings for NewMapJson) + Go-side oracle",
@@ -12,5 +13,5 @@ PROP = {
         "package variable JsonUseNumber is set before and restored after each call",
     ],
     "level_text": "Machine-checked theorems over the executable model of Map.Json / Map.JsonIndent and of the string codec of encoding/json, for all valid UTF-8 strings and all Maps of JSON types, both encodings: per-string law, every literal of the output decodes to its string, safe encoding has no literal < > &, NewMapJson = the acceptance specification on non-empty input; the former default encoding (repaired in /repo b2598e9) is kept as a specification artefact with its refutation and the byte-for-byte compatibility theorem; the model is tied to the current /repo by differential correspondence and a Go-side oracle evaluates the property statement on the implementation.",
-    "level_note": "Trusted: Coq kernel + vm_compute; encoding/json's structure (segments, decode_segs) and its decoder (oracle) are the environment, validated by correspondence; the structural round trip decode_segs (segments v) = canonical v is PROVED for all JSON-shaped Maps in both number modes (C06_json_roundtrip, also for JsonIndent with blank prefix/indent and for Copy), over the segment model of encoding/json; the byte-level scanner of encoding/json is not transcribed (environment); one recorded finding (NewMapJson accepts the empty input, documented).",
+    "level_note": "Map.Json and Map.Copy re-translated by go2v on every run and proved to be marshalJSON(mv, flag) / Json then NewMapJson (C06_json_code, C06_copy_code); Trusted: Coq kernel + vm_compute; encoding/json's structure (segments, decode_segs) and its decoder (oracle) are the environment, validated by correspondence; the structural round trip decode_segs (segments v) = canonical v is PROVED for all JSON-shaped Maps in both number modes (C06_json_roundtrip, also for JsonIndent with blank prefix/indent and for Copy), over the segment model of encoding/json; the byte-level scanner of encoding/json is not transcribed (environment); one recorded finding (NewMapJson accepts the empty input, documented).",
 }
